@@ -396,9 +396,16 @@ func ReplayHistory(tw *TraceWriter, id int, h []Action) {
 			}
 		case "Frag":
 			Syms([]*Node{a.Tree}, syms)
-			sA := NewBuilder().Code(a.Tree)
-			sB := NewBuilder().Code(a.Tree)
+			var sA, sB jen.Code
+			built := safely(func() ([]byte, error) {
+				sA = NewBuilder().Code(a.Tree)
+				sB = NewBuilder().Code(a.Tree)
+				return nil, nil
+			})
 			frag := func(c jen.Code, f *jen.File) renderResult {
+				if built.status == "panic" {
+					return renderResult{status: "panic", msg: "while building: " + built.msg}
+				}
 				return safely(func() ([]byte, error) {
 					var buf bytes.Buffer
 					var err error
